@@ -1,4 +1,4 @@
-CONSTANTS MaxParams = 4 MaxVars = 3 Pool = "large" MaxCalls = 8 Mutant = "none"
+CONSTANTS MaxParams = 4 MaxVars = 3 Pool = "large" MaxCalls = 8 OptFields = {"name", "other", "type"} MaxPages = 3 Mutant = "none"
 SPECIFICATION Spec
 INVARIANT Inv_Explicit
 INVARIANT Inv_NoHeaderWhenNothing
